@@ -41,7 +41,11 @@ def _wrap(rng, inner, qs, depth):
         perm = rng.sample(qs, len(qs))
         op = op.with_qubit_mapping(dict(zip(qs, perm)))
     if rng.random() < 0.4:
-        op = op.with_measurement_key_mapping({"a": rng.choice(["a", "c", "b"])}) if rng.random() < 0.5 else op.with_key_path(("p",))
+        # a key map that sends 'a' onto a key the sub-circuit also measures is a user error (collision), not a case of the property
+        import re as _re
+        present = set(_re.findall(r"MeasurementKey\(name='(\w+)'", repr(op)))  # every key name anywhere inside, whatever the repetition count
+        targets = [t for t in ["a", "c", "b"] if t == "a" or t not in present]
+        op = op.with_measurement_key_mapping({"a": rng.choice(targets)}) if rng.random() < 0.5 else op.with_key_path(("p",))
     if depth > 0 and rng.random() < 0.5:
         outer_ops = [op]
         if rng.random() < 0.5:
@@ -142,8 +146,13 @@ def standin_subcircuits(tier, seed):
         except ValueError as ex:
             if 'no measurements' not in str(ex):
                 fails.append(dict(args=dict(circuit=repr(c)), failed='simulate-raised', clause=f'Simulator raised {ex!r} on a circuit whose unrolled form is valid'))
-        if len(fails) >= 4:
-            break
+        # keep one witness per failure kind and go on exploring (a known finding must not hide other kinds)
+        seen_kinds, uniq = set(), []
+        for f_ in fails:
+            if f_["failed"] not in seen_kinds:
+                seen_kinds.add(f_["failed"])
+                uniq.append(f_)
+        fails = uniq
     return dict(function=F + "[wrapped vs unrolled]", case="subcircuits",
                 bound="seeded nestings of depth <= 3 over 3 qubits: repetitions {0,1,2,3} with/without repetition ids, qubit permutations, key maps, "
                       "parent paths, shadowed keys a/b, classical controls inside and across scopes",
